@@ -75,8 +75,11 @@ def run(ctx):
     ctx.rule("CLI-5", "no Result::unwrap reachable from main; Option::unwrap only under its non-emptiness test; library functions with a documented panic are "
                       "called only under the negation of the panic condition")
     ctx.assume("clap parses flags as declared by the #[arg] attributes; process output is what print!/eprint! receive")
+    ctx.rule("DEF-1", "every used argument-less producer of the settings (RegExpConfig::new, a derived Default once something calls it) yields the documented defaults: "
+                      "the constructors `from` (CLI, bindings) and `from_file` start from the same settings")
     prog = common.view(ctx, "default")
     lib, bin_ = prog.lib, prog.bin
+    common.def1(ctx, lib)
     if bin_ is None:
         ctx.anchor_lost("CLI-1", "bin crate facts")
         return
@@ -309,8 +312,19 @@ def run(ctx):
                         else:
                             okc = False
                             detail.append("map closure transforms the line: %s" % local.show(r))
+                    elif clo[0] == "const" and isinstance(clo[2], dict) and clo[2].get("t") == "fn":
+                        # a function item instead of a closure: map(String::from) / map(str::to_string) / map(ToOwned::to_owned) / map(Into::into)
+                        fp, fa = clo[2].get("path") or "", [norm(a) for a in clo[2].get("args") or []]
+                        ident = (fp in ("std::convert::From::from", "std::convert::Into::into") and sorted(fa) == ["&str", "std::string::String"]) \
+                            or (fp in ("std::string::ToString::to_string", "std::borrow::ToOwned::to_owned") and fa[:1] == ["str"])
+                        if ident:
+                            detail.append("map(%s)" % fp.rsplit("::", 1)[-1])
+                        else:
+                            okc = None if okc else okc
+                            detail.append("map through the function %s%s, which this rule does not know" % (fp, fa))
                     else:
-                        okc = False
+                        okc = None if okc else okc
+                        detail.append("map through a value that is neither a closure nor a function item")
                 elif seg in ("collect_vec", "collect"):
                     detail.append(seg)
                 else:
@@ -318,6 +332,8 @@ def run(ctx):
                     detail.append("unexpected consumer " + seg)
             if okc and users:
                 ctx.ok("CLI-3", "%s:%s" % (b.path, n.rsplit("::", 1)[-1] + "#%d" % bi), {"chain": detail}, b.loc(t.get("line")))
+            elif okc is None:
+                ctx.undecided("CLI-3", "%s:%s" % (b.path, n.rsplit("::", 1)[-1]), "; ".join(detail), b.loc(t.get("line")))
             else:
                 ctx.violation("CLI-3", (b.path, n), "line channel is not lines() -> identity map -> collect: %s" % detail, b.loc(t.get("line")))
         # forbidden alternative splitters in the same function
